@@ -304,8 +304,10 @@ const T0_MS: u64 = 1_000_000;
 /// past every primed deadline
 const LATER_MS: [u64; 3] = [T0_MS + 8_000, T0_MS + 60_000, T0_MS + 2_000_000];
 
+/// a non-UTF-8 element present in every primed container (and the first byte variant of the sweeps)
+const BIN: &[u8] = b"\xff\x00\xfe";
 /// the primed keyspace, described for replay files
-const PRIMED: &str = "t=1000000ms; TTL-carrying: s='10'(100s) l=[a,b,c](200s) st={a,b}(50s) h={f:1,g:x}(300s) z={a:1,b:2,c:3}(400s) n='7'(5s); without TTL: t='text' l2=[x,y] st2={a,c} h2={f:5} z2={a:1,m:9} c='41'; x='gone' whose deadline (t-4s) has passed but which was never evicted";
+const PRIMED: &str = "t=1000000ms; TTL-carrying: s='10'(100s) l=[a,b,c,BIN](200s) st={a,b,BIN}(50s) h={f:1,g:x,BIN:BIN}(300s) z={a:1,b:2,c:3,BIN:4}(400s) n='7'(5s), BIN = ff 00 fe; without TTL: t='text' l2=[x,y] st2={a,c} h2={f:5} z2={a:1,m:9} c='41'; x='gone' whose deadline (t-4s) has passed but which was never evicted";
 
 /// a keyspace with keys of every type, with and without a TTL, at a non-zero virtual time
 /// (both twins start from it)
@@ -322,13 +324,16 @@ fn primed() -> CommandExecutor {
     e.execute(&Command::set("t".into(), sd("text")));
     e.execute(&Command::set("n".into(), sd("7")));
     e.execute(&Command::set("c".into(), sd("41")));
-    e.execute(&Command::RPush("l".into(), vec![sd("a"), sd("b"), sd("c")]));
+    // every container also holds the binary element BIN, so that removals / lookups with a binary
+    // argument hit an existing entry (a lossy conversion in one path then changes the effect)
+    let bin = || SDS::new(BIN.to_vec());
+    e.execute(&Command::RPush("l".into(), vec![sd("a"), sd("b"), sd("c"), bin()]));
     e.execute(&Command::RPush("l2".into(), vec![sd("x"), sd("y")]));
-    e.execute(&Command::SAdd("st".into(), vec![sd("a"), sd("b")]));
+    e.execute(&Command::SAdd("st".into(), vec![sd("a"), sd("b"), bin()]));
     e.execute(&Command::SAdd("st2".into(), vec![sd("a"), sd("c")]));
-    e.execute(&Command::HSet("h".into(), vec![(sd("f"), sd("1")), (sd("g"), sd("x"))]));
+    e.execute(&Command::HSet("h".into(), vec![(sd("f"), sd("1")), (sd("g"), sd("x")), (bin(), bin())]));
     e.execute(&Command::HSet("h2".into(), vec![(sd("f"), sd("5"))]));
-    e.execute(&zadd("z", vec![(1.0, sd("a")), (2.0, sd("b")), (3.0, sd("c"))]));
+    e.execute(&zadd("z", vec![(1.0, sd("a")), (2.0, sd("b")), (3.0, sd("c")), (4.0, bin())]));
     e.execute(&zadd("z2", vec![(1.0, sd("a")), (9.0, sd("m"))]));
     for (k, secs) in [("s", 100), ("l", 200), ("st", 50), ("h", 300), ("z", 400), ("n", 5)] {
         e.execute(&Command::expire(k.into(), secs));
